@@ -31,8 +31,10 @@ BinItem(it, st, i) == IF it.k = "bvm" THEN BVM
                       ELSE Enc(LstVal(it), <<>>, st, i).b
 TextItem(it, st, i) == IF it.k = "bvm" THEN T_ion_1_0
                        ELSE IF it.k = "val" THEN Spell(UserVal(it.sid), "top", st, i).b
-                       ELSE \* the table struct itself is spelled plainly: only unquoted $ion_symbol_table is generated
-                            T_ion_symbol_table \o <<58, 58>> \o Spell([LstVal(it) EXCEPT !.ann = <<>>], "top", st, i).b
+                       ELSE \* the marking annotation is the symbol whose text is $ion_symbol_table, quoted or not
+                            (IF Ch(st, i + 7, 3) = 0 THEN <<39>> \o T_ion_symbol_table \o <<39>> ELSE T_ion_symbol_table)
+                            \o (IF Ch(st, i + 8, 4) = 0 THEN <<32, 58, 58, 32>> ELSE <<58, 58>>)
+                            \o Spell([LstVal(it) EXCEPT !.ann = <<>>], "top", st, i).b
 
 Render(h, st, bin) ==
   LET items == [k \in 1..Len(h) |-> Items[h[k]]]
